@@ -399,3 +399,32 @@ func recvPathKey(info *types.Info, call *ast.CallExpr) string {
 	}
 	return b + implicitPath(s, len(s.Index())-1)
 }
+
+// isErrVar: e is a variable whose type is the predeclared error interface.
+func isErrVar(info *types.Info, e ast.Expr) bool {
+	v, ok := objOf(info, e).(*types.Var)
+	if !ok {
+		return false
+	}
+	return types.Identical(v.Type(), types.Universe.Lookup("error").Type())
+}
+
+// isBoolVar: e is a boolean variable.
+func isBoolVar(info *types.Info, e ast.Expr) bool {
+	v, ok := objOf(info, e).(*types.Var)
+	if !ok {
+		return false
+	}
+	b, ok := v.Type().Underlying().(*types.Basic)
+	return ok && b.Info()&types.IsBoolean != 0
+}
+
+// isURLPath: e is <x>.Path with x of type (*)net/url.URL.
+func isURLPath(info *types.Info, e ast.Expr) bool {
+	fv, b := fieldOf(info, e)
+	if fv == nil || fv.Name() != "Path" {
+		return false
+	}
+	tv, ok := info.Types[b]
+	return ok && typeIs(tv.Type, "net/url", "URL")
+}
